@@ -82,11 +82,13 @@ class World:
         t.thread.start()
         return t
 
-    def op(self, kind, obj, enabled, effect, detail=None):
+    def op(self, kind, obj, enabled, effect, detail=None, timed=False):
         if self.killing:
             raise Killed()           # unwinding (finally / __exit__ blocks) after the execution was stopped
         t = self.cur
-        t.pending = (kind, obj, enabled)
+        # timed: an operation with a timeout. Virtual time: it proceeds when its condition holds, and the timeout fires only when no
+        # task at all can take a step (time passes only when nothing else can happen), so a polling loop cannot starve the others
+        t.pending = (kind, obj, enabled, timed)
         self.sched_sem.release()
         t.sem.acquire()
         if self.killing:
@@ -117,6 +119,8 @@ class World:
                 self.outcome = "ok"
                 break
             en = [t for t in live if t.pending is None or t.pending[2]()]
+            if not en:
+                en = [t for t in live if t.pending is not None and len(t.pending) > 3 and t.pending[3]]     # timeouts fire
             if not en:
                 self.outcome = "deadlock"
                 self.blocked = [(t.name, t.pending[0], getattr(t.pending[1], "name", None)) for t in live]
@@ -157,11 +161,11 @@ def _show(r):
     return type(r).__name__
 
 
-def vop(kind, obj, enabled, effect, detail=None):
+def vop(kind, obj, enabled, effect, detail=None, timed=False):
     w = W
     if w is None or w.cur is None:
         return effect()              # outside a controlled execution (e.g. module import)
-    return w.op(kind, obj, enabled, effect, detail)
+    return w.op(kind, obj, enabled, effect, detail, timed)
 
 
 def _always():
@@ -185,7 +189,7 @@ class SimEvent:
 
     def wait(self, timeout=None):
         if timeout is not None:
-            return vop("ev.wait_t", self, _always, lambda: self.flag)
+            return vop("ev.wait_t", self, lambda: self.flag, lambda: self.flag, timed=True)
         return vop("ev.wait", self, lambda: self.flag, lambda: True)
 
 
@@ -203,6 +207,13 @@ class SimLock:
                     return True
                 return False
             return vop("lock.try", self, _always, eff)
+        if timeout is not None and timeout >= 0:
+            def eff_t():
+                if self.holder is None:
+                    self.holder = me
+                    return True
+                return False
+            return vop("lock.acq_t", self, lambda: self.holder is None, eff_t, timed=True)
         return vop("lock.acq", self, lambda: self.holder is None, lambda: setattr(self, "holder", me) or True)
 
     def release(self):
@@ -314,7 +325,10 @@ class SimQueue:
             if self._full():
                 return _q.Full
             self._add(x)
-        r = vop("q.put_nb", self, _always, eff, _tag(x))
+        if block:       # put with a timeout: waits for room, the timeout fires only when nothing else can happen
+            r = vop("q.put_t", self, lambda: not self._full(), eff, _tag(x), timed=True)
+        else:
+            r = vop("q.put_nb", self, _always, eff, _tag(x))
         if r is _q.Full:
             raise _q.Full()
 
@@ -335,7 +349,10 @@ class SimQueue:
             if not self.items:
                 return _q.Empty
             return self._take()
-        r = vop("q.get_nb", self, _always, eff)
+        if block:       # get with a timeout
+            r = vop("q.get_t", self, lambda: len(self.items) > 0, eff, timed=True)
+        else:
+            r = vop("q.get_nb", self, _always, eff)
         if r is _q.Empty:
             raise _q.Empty()
         return r
@@ -384,6 +401,8 @@ class SimSemaphore:
                     self.v -= 1
                     return True
                 return False
+            if blocking:
+                return vop("sem.acq_t", self, lambda: self.v > 0, eff, timed=True)
             return vop("sem.try", self, _always, eff)
 
         def take():
@@ -431,7 +450,7 @@ class SimCondition:
         for _ in range(depth if isinstance(self.lock, SimRLock) else 1):
             self.lock.release()
         if timeout is not None:
-            r = vop("cond.wait_t", self, _always, lambda: token[0])
+            r = vop("cond.wait_t", self, lambda: token[0], lambda: token[0], timed=True)
         else:
             r = vop("cond.wait", self, lambda: token[0], lambda: True)
         if token in self.waiters:
@@ -719,7 +738,7 @@ class SimThread:
 
     def join(self, timeout=None):
         if timeout is not None:
-            vop("join_t", self, _always, lambda: None)
+            vop("join_t", self, lambda: self._task is not None and self._task.done and not _holding(self._task), lambda: None, timed=True)
             return
         vop("join", self, lambda: self._task is not None and self._task.done and not _holding(self._task), lambda: None)
 
